@@ -241,6 +241,20 @@ func (vr *variableResolver) String() string {
 	return strings.Join(parts, ".")
 }
 
+// fieldByName is reflect.Value.FieldByName, except that a field which lies behind a nil
+// embedded pointer yields the zero Value instead of a panic.
+func fieldByName(v reflect.Value, name string) reflect.Value {
+	sf, ok := v.Type().FieldByName(name)
+	if !ok {
+		return reflect.Value{}
+	}
+	f, err := v.FieldByIndexErr(sf.Index)
+	if err != nil {
+		return reflect.Value{}
+	}
+	return f
+}
+
 func (vr *variableResolver) resolve(ctx *ExecutionContext) (*Value, error) {
 	var current reflect.Value
 	var isSafe bool
@@ -324,7 +338,7 @@ func (vr *variableResolver) resolve(ctx *ExecutionContext) (*Value, error) {
 					// Calling a field or key
 					switch current.Kind() {
 					case reflect.Struct:
-						current = current.FieldByName(part.s)
+						current = fieldByName(current, part.s)
 					case reflect.Map:
 						key := reflect.ValueOf(part.s)
 						if !key.Type().AssignableTo(current.Type().Key()) {
@@ -358,7 +372,7 @@ func (vr *variableResolver) resolve(ctx *ExecutionContext) (*Value, error) {
 						if err != nil {
 							return nil, err
 						}
-						current = current.FieldByName(sv.String())
+						current = fieldByName(current, sv.String())
 					case reflect.Map:
 						sv, err := part.subscript.Evaluate(ctx)
 						if err != nil {
